@@ -290,7 +290,7 @@ def run_k4(tier, seed):
     def mism(kind, c, a, b, term, style):
         res["mismatch"].setdefault(kind, [])
         if len(res["mismatch"][kind]) < 200:
-            res["mismatch"][kind].append({"case": c[:1500], "impl": a, "model": b, "term": term, "style": style})
+            res["mismatch"][kind].append({"case": c[:400000], "impl": a, "model": b, "term": term, "style": style})
 
     for c, a, m, (style, inp) in zip(cases, impl, model, meta):
         cf, af, mf = k3.fields(c), k3.fields(a), k3.fields(m)
